@@ -342,3 +342,96 @@ func randExpr(r *rng.R, ops string, k int) string {
 	}
 	return string(b)
 }
+
+// boundary: seeded edits (add / drop / change one symbol / wrap a symbol in a new non-terminal) of the
+// grammars that separate SLR, LALR, LR(1) and non-LR(1), so that the neighbourhood of the class
+// boundaries is explored.
+var boundaryBases = [][]string{
+	{"S", "S:LeR", "S:R", "L:sR", "L:i", "R:L"},
+	{"S", "S:aAd", "S:bBd", "S:aBe", "S:bAe", "A:c", "B:c"},
+	{"S", "S:Aa", "S:bAc", "S:dc", "S:bda", "A:d"},
+	{"S", "S:AaAb", "S:BbBa", "A:", "B:"},
+	{"S", "S:aAc", "S:aBd", "S:bAd", "S:bBc", "A:z", "B:z"},
+	{"S", "S:Ab", "S:Bc", "A:a", "B:a"},
+	{"S", "S:aba", "S:SSa"},
+	{"S", "S:CC", "C:cC", "C:d"},
+	{"S", "S:AB", "A:aA", "A:", "B:bB", "B:"},
+	{"S", "S:aAd", "S:bAe", "S:aBe", "A:c", "B:c"},
+	{"S", "S:Aa", "S:Bb", "A:Ac", "A:c", "B:Bc", "B:c"},
+	{"S", "S:aSb", "S:ab", "S:c"},
+	{"S", "S:AS", "S:b", "A:SA", "A:a"},
+}
+
+func genBoundary(w *tr.W, r *rng.R, thorough bool) {
+	cases := 170
+	if thorough {
+		cases = 4000
+	}
+	spare := "XYZ"
+	made := 0
+	for tries := 0; made < cases && tries < cases*50; tries++ {
+		base := boundaryBases[r.Intn(len(boundaryBases))]
+		ps := append([]string(nil), base[1:]...)
+		g0 := mk('S', ps...)
+		edits := r.Range(1, 2)
+		for e := 0; e < edits; e++ {
+			syms := g0.nts + g0.terms
+			switch r.Intn(5) {
+			case 0: // add a production with a short random body
+				h := g0.nts[r.Intn(len(g0.nts))]
+				bl := r.Range(0, 3)
+				b := make([]byte, bl)
+				for j := range b {
+					b[j] = syms[r.Intn(len(syms))]
+				}
+				ps = append(ps, string(h)+":"+string(b))
+			case 1: // drop a production
+				if len(ps) > 1 {
+					k := r.Intn(len(ps))
+					ps = append(ps[:k:k], ps[k+1:]...)
+				}
+			case 2: // change one symbol
+				k := r.Intn(len(ps))
+				if len(ps[k]) > 2 {
+					b := []byte(ps[k])
+					b[2+r.Intn(len(b)-2)] = syms[r.Intn(len(syms))]
+					ps[k] = string(b)
+				}
+			case 3: // wrap one body symbol in a fresh non-terminal X -> sym  (or X -> sym | epsilon)
+				k := r.Intn(len(ps))
+				if len(ps[k]) > 2 {
+					var x byte
+					for i := 0; i < len(spare); i++ {
+						if !strings.ContainsRune(g0.nts, rune(spare[i])) && !strings.Contains(strings.Join(ps, ","), string(spare[i])) {
+							x = spare[i]
+							break
+						}
+					}
+					if x != 0 {
+						b := []byte(ps[k])
+						j := 2 + r.Intn(len(b)-2)
+						old := b[j]
+						b[j] = x
+						ps[k] = string(b)
+						ps = append(ps, string(x)+":"+string(old))
+						if r.Chance(1, 3) {
+							ps = append(ps, string(x)+":")
+						}
+					}
+				}
+			case 4: // delete one symbol from a body
+				k := r.Intn(len(ps))
+				if len(ps[k]) > 2 {
+					j := 2 + r.Intn(len(ps[k])-2)
+					ps[k] = ps[k][:j] + ps[k][j+1:]
+				}
+			}
+		}
+		g := mk('S', ps...)
+		if g.terms == "-" || len(g.terms) > 5 || !reduced(g) {
+			continue
+		}
+		made++
+		runCase(w, g, stdOps(g, lenFor(g, thorough)))
+	}
+}
